@@ -33,6 +33,8 @@ var (
 	ErrTxDuplicated = errors.New("transaction duplicated in different blocks")
 	// ErrRootBlockAlreadyExist is returned when two genesis block is checked in the process of confirming block
 	ErrRootBlockAlreadyExist = errors.New("this ledger already has genesis block")
+	// ErrBlockAlreadyExist is returned when a block that is already stored is confirmed again
+	ErrBlockAlreadyExist = errors.New("block already exists in this ledger")
 	// ErrTxNotConfirmed return tx not confirmed error
 	ErrTxNotConfirmed = errors.New("transaction not confirmed")
 	// NumCPU returns the number of CPU cores for the current system
@@ -589,6 +591,14 @@ func (l *Ledger) ConfirmBlock(block *pb.InternalBlock, isRoot bool) ConfirmStatu
 		block.InTrunk = true
 		block.Height = 0 // 创世纪块是第0块
 	} else { //非创世块,需要判断是在主干还是分支
+		if exist, _ := l.blocksTable.Has(block.Blockid); exist {
+			// 已经在账本里的区块不能再确认一次，否则它的InTrunk/NextHash会被当成新的分支块覆盖掉
+			confirmStatus.Succ = false
+			confirmStatus.Error = ErrBlockAlreadyExist
+			l.xlog.Warn("block already exists", "blockid", utils.F(block.Blockid))
+			block.Transactions = realTransactions
+			return confirmStatus
+		}
 		preHash := block.PreHash
 		preBlock, findErr := l.fetchBlock(preHash)
 		if findErr != nil {
